@@ -80,3 +80,52 @@ def conforming_aa55(data: str, lb: int, overhead: int, rt_t: Tuple, types_below_
     tailw = ("int", ("slice", dv, Lin.of_const(-2), None), "big", False)
     A.append(Fact("eq", Lin.of_term(masked) - Lin.of_term(tailw)))     # 16-bit additive checksum, unsigned
     return A
+
+
+# Documented interpretation of each sensor type (C12.R1): canonical decoder summaries
+#   reads  = bytes consumed after positioning at the sensor's own register (kind+size@byte delta; u/s = unsigned/signed big-endian)
+#   cases  = condition -> value, R[...] being the raw register content
+# Confirmed on the pinned tree against the class docstrings ("encoded in 2 (unsigned) bytes", ...) and the scales / sentinels
+# named in the property (0.1 V, 0.1 A, 0.01 Hz, 0.1 C, 0.1 kWh; Energy4W 0.001, Energy8 0.01; 0xFFFF.. / -1 / 0x7FFF = no value).
+# {scale} is the row's own scale argument.
+DECODER_REFERENCE = {
+    "Timestamp": ("u1@0,u1@1,u1@2,u1@3,u1@4,u1@5", ["always -> datetime((R[u1@0] + 2000), R[u1@1], R[u1@2], R[u1@3], R[u1@4], R[u1@5])"]),
+    "Voltage": ("u2@0", ["!R[u2@0]==65535 -> (R[u2@0] * 1/10)", "R[u2@0]==65535 -> 0"]),          # 0.1 V, 0xFFFF -> 0
+    "Current": ("u2@0", ["!R[u2@0]==65535 -> (R[u2@0] * 1/10)", "R[u2@0]==65535 -> 0"]),          # 0.1 A
+    "CurrentS": ("s2@0", ["always -> (R[s2@0] * 1/10)"]),
+    "Frequency": ("s2@0", ["always -> (R[s2@0] * 1/100)"]),                                        # 0.01 Hz
+    "Power": ("u2@0", ["!R[u2@0]==65535 -> R[u2@0]", "R[u2@0]==65535 -> None"]),
+    "PowerS": ("s2@0", ["always -> R[s2@0]"]),
+    "Power4": ("u4@0", ["!R[u4@0]==4294967295 -> R[u4@0]", "R[u4@0]==4294967295 -> None"]),
+    "Power4S": ("s4@0", ["always -> R[s4@0]"]),
+    "Energy": ("u2@0", ["!R[u2@0]==65535 -> (R[u2@0] * 1/10)", "R[u2@0]==65535 -> None"]),         # 0.1 kWh
+    "Energy4": ("u4@0", ["!R[u4@0]==4294967295 -> (R[u4@0] * 1/10)", "R[u4@0]==4294967295 -> None"]),
+    "Energy4W": ("u4@0", ["!R[u4@0]==4294967295 -> (R[u4@0] * 1/1000)", "R[u4@0]==4294967295 -> None"]),
+    "Energy8": ("u8@0", ["!R[u8@0]==18446744073709551615 -> (R[u8@0] * 1/100)", "R[u8@0]==18446744073709551615 -> None"]),
+    "Apparent": ("s2@0", ["always -> R[s2@0]"]),
+    "Apparent4": ("s4@0", ["always -> R[s4@0]"]),
+    "Reactive": ("s2@0", ["always -> R[s2@0]"]),
+    "Reactive4": ("s4@0", ["always -> R[s4@0]"]),
+    "Temp": ("s2@0", ["!R[s2@0]==-1 & !R[s2@0]==32767 -> (R[s2@0] * 1/10)", "R[s2@0]==32767 -> None", "R[s2@0]==-1 -> None"]),  # 0.1 C, -1 / 0x7FFF
+    "CellVoltage": ("u2@0", ["!R[u2@0]==65535 -> (R[u2@0] * 1/1000)", "R[u2@0]==65535 -> 0"]),
+    "Byte": ("s1@0", ["always -> R[s1@0]"]),
+    "ByteH": ("s1@0", ["always -> R[s1@0]"]),
+    "ByteL": ("s1@0,s1@1", ["always -> R[s1@1]"]),
+    "Integer": ("u2@0", ["!R[u2@0]==65535 -> R[u2@0]", "R[u2@0]==65535 -> 0"]),
+    "IntegerS": ("s2@0", ["always -> R[s2@0]"]),
+    "Long": ("u4@0", ["!R[u4@0]==4294967295 -> R[u4@0]", "R[u4@0]==4294967295 -> 0"]),
+    "LongS": ("s4@0", ["always -> R[s4@0]"]),
+    "Decimal": ("s2@0", ["always -> (R[s2@0] * 1/{scale})"]),
+    "Float": ("float>f4@0", ["always -> round((R[float>f4@0] * 1/{scale}), 3)"]),
+    "Enum": ("s1@0", ["always -> label(R[s1@0])"]),
+    "EnumH": ("s1@0", ["always -> label(R[s1@0])"]),
+    "EnumL": ("s1@0,s1@1", ["always -> label(R[s1@1])"]),
+    "Enum2": ("u2@0", ["!R[u2@0]==65535 -> label(R[u2@0])", "R[u2@0]==65535 -> label(0)"]),
+}
+
+# field layout of the schedule / eco-mode groups: (attribute, raw field) in wire order
+GROUP_LAYOUT = {
+    "EcoModeV1": [("start_h", "s1@0"), ("start_m", "s1@1"), ("end_h", "s1@2"), ("end_m", "s1@3"), ("power", "s2@4"), ("on_off", "s1@6"), ("day_bits", "s1@7")],
+    "Schedule": [("start_h", "s1@0"), ("start_m", "s1@1"), ("end_h", "s1@2"), ("end_m", "s1@3"), ("on_off", "s1@4"), ("day_bits", "s1@5"),
+                 ("power", "s2@6"), ("soc", "s2@8"), ("month_bits", "s2@10")],
+}
